@@ -33,6 +33,10 @@ def cases(tier):
         if procs == 2 and not (delta == 1 and okkind == "fixable"):
             continue
         out.append({"unit": unit, "delta": delta, "bl": bl, "cl": cl, "sf": sf, "cmd": cmd, "ok": okkind, "procs": procs})
+        # the same limits set by a NESTED config: big.sql lives in m/ whose .sqlfluff carries the limits
+        # while the root config says the opposite (limit <-> no limit)
+        if okkind == "fixable" and (bl or cl):
+            out.append({"unit": unit, "delta": delta, "bl": bl, "cl": cl, "sf": sf, "cmd": cmd, "ok": okkind, "procs": procs, "where": "nested"})
     return out
 
 
@@ -62,15 +66,23 @@ def run_case(case):
     for variant in ("with", "without"):
         d = os.path.join(base, variant)
         os.makedirs(d)
+        nested = case.get("where") == "nested"
+        bigrel = os.path.join("m", "big.sql") if nested else "big.sql"
         with open(os.path.join(d, ".sqlfluff"), "w") as f:
+            rb, rc_ = ((0 if case["bl"] else L), (0 if case["cl"] else L)) if nested else (case["bl"], case["cl"])
             f.write(
                 "[sqlfluff]\ndialect = ansi\nrules = LT01\nlarge_file_skip_byte_limit = %d\nlarge_file_skip_char_limit = %d\nlarge_file_skip_fail = %s\n"
-                % (case["bl"], case["cl"], case["sf"])
+                % (rb, rc_, case["sf"])
             )
+        if nested:
+            os.makedirs(os.path.join(d, "m"))
+            with open(os.path.join(d, "m", ".sqlfluff"), "w") as f:
+                f.write("[sqlfluff]\nlarge_file_skip_byte_limit = %d\nlarge_file_skip_char_limit = %d\n" % (case["bl"], case["cl"]))
+        # ok.sql must stay below every limit in play (it is 16-17 bytes; L = 40)
         with open(os.path.join(d, "ok.sql"), "w", encoding="utf-8") as f:
             f.write(oktext)
         if variant == "with":
-            with open(os.path.join(d, "big.sql"), "w", encoding="utf-8") as f:
+            with open(os.path.join(d, bigrel), "w", encoding="utf-8") as f:
                 f.write(text)
         args = [case["cmd"], ".", "--processes", str(case["procs"])]
         if case["cmd"] == "lint":
@@ -99,7 +111,7 @@ def run_case(case):
         finally:
             Linter._parse_tokens = staticmethod(orig)
             Linter.lint_paths = orig_lp
-        after = open(os.path.join(d, "big.sql"), encoding="utf-8").read() if variant == "with" else None
+        after = open(os.path.join(d, bigrel), encoding="utf-8").read() if variant == "with" else None
         recs = None
         if case["cmd"] == "lint":
             try:
